@@ -4,6 +4,7 @@ package connectconformance
 
 import (
 	"context"
+	"errors"
 	"fmt"
 	"strings"
 	"testing"
@@ -209,6 +210,7 @@ func c10Body(tape *simrt.Tape, o simwork.Opts, res *simwork.Result) {
 	viol := func(class, format string, args ...any) {
 		res.Violations = append(res.Violations, simwork.Violation{Class: class, Detail: fmt.Sprintf(format, args...)})
 	}
+	runningAtFailure := ""
 	doSend := func(reqIdx int, name string, late bool) {
 		s := &c10Send{Req: reqIdx, Name: name, StartStep: sim.Steps(), AfterDone: late}
 		sends = append(sends, s)
@@ -220,6 +222,13 @@ func c10Body(tape *simrt.Tape, o simwork.Opts, res *simwork.Result) {
 		s.Err = runner.sendRequest(req, func(n string, resp *conformancev1.ClientCompatResponse, err error) {
 			s.Callbacks++
 			s.Resp, s.CbErr, s.CbName = resp, err, n
+			// The caller learns of a fatal failure of the client's output
+			// (anything but a clean end) through this callback: from then on
+			// the runner must say that the client is no longer running, whether
+			// or not the process has actually gone yet.
+			if err != nil && !errors.Is(err, errNoOutcome) && runner.isRunning() && runningAtFailure == "" {
+				runningAtFailure = fmt.Sprintf("callback for %q carried the fatal error %q at %s, and isRunning() was still true", n, err, sim.Elapsed())
+			}
 			sim.MixLog("cb:" + n)
 		})
 		s.Returned = true
@@ -422,6 +431,9 @@ func c10Body(tape *simrt.Tape, o simwork.Opts, res *simwork.Result) {
 		if s.AfterDone && s.Returned && s.Err == nil {
 			viol("c10/send-after-end-accepted", "sendRequest(%q) issued after waitForResponses returned was accepted", s.Name)
 		}
+	}
+	if runningAtFailure != "" {
+		viol("c10/isrunning-after-failure", "%s (fault=%s)", runningAtFailure, cs.Fault)
 	}
 	if checkedRun && runningAtEnd {
 		viol("c10/isrunning-after-exit", "client process ended at %s (fault=%s, exit-early=%d) but isRunning() was still true at %s",
